@@ -253,6 +253,10 @@ package resolver
 //@   abstract
 //@   nosafety all pre
 //@   assert at call (*middleware/resolver.Resolver).lookup#1: arg3 == leaderReq && arg4 == servers
+//@   # C13: a lookup refused for lack of in-flight capacity is reported with one of the two shedding sentinels (never as
+//@   # an authority failure)
+//@   assert at return#1: result0 == nil && dyntype(result1, *dnsutil.EDEError) && as(result1, *dnsutil.EDEError) == errResolutionCapacity
+//@   assert at return#2: result0 == nil && dyntype(result1, *dnsutil.EDEError) && as(result1, *dnsutil.EDEError) == errZoneCapacity
 //@
 //@ # ---- C09: RFC 5011 trust-anchor maintenance.
 //@ # a revocation is recognised only for the SAME key material with exactly the REVOKE bit toggled
@@ -527,3 +531,12 @@ package resolver
 //@   abstract
 //@   nosafety all pre
 //@   assert at call middleware/resolver.pickFallbackResponse#1: exhausted(1) || (resp.Rcode == dns.RcodeNameError && (len(responseErrors) > 2 || level < 2))
+//@
+//@ # ---- C13: the two load-shedding sentinels (no free in-flight resolution slot / zone at its in-flight quota) are
+//@ # built wrapping middleware.ErrResolutionShed, the cause IsRequestLocalResolutionError recognises: a shed lookup is
+//@ # therefore marked request-local by the handler and is never admitted to the shared failure cache
+//@ func init
+//@   abstract
+//@   nosafety all pre
+//@   assert at store dnsutil.EDEError.Err#1: value == middleware.ErrResolutionShed
+//@   assert at store dnsutil.EDEError.Err#2: value == middleware.ErrResolutionShed
